@@ -36,7 +36,7 @@ def exclude(ctx, case, model):
 
 
 def run(ctx, tier, seed, shard, nshards):
-    n = 150 if tier == "quick" else 1200
+    n = 400 if tier == "quick" else 2000
     D.explore(ctx, seed, n, strategy(), JUDGE, limit_all=6 if tier == "quick" else 9, n_sample=24,
               nontrivial=nontrivial, exclude=exclude)
 
